@@ -254,9 +254,10 @@ func init() {
 	reg(&propDef{
 		ID: "C20",
 		Runs: []hrun{
-			{Pkg: walletPkg, Fn: "ZzC20Publish", Tiers: "qt", Reach: []string{"c20-end", "recorded", "failed", "already-known"}, Bound: "funded wallet (one confirmed credit, symbolic amount); one send; backend answer from {accepted, already in mempool, already known, already confirmed, rejected, subscription failure}; balance compared for symbolic minconf 0..10"},
+			{Pkg: walletPkg, Fn: "ZzC20Publish", Tiers: "qt", Reach: []string{"c20-end", "recorded", "failed", "already-known"}, Bound: "funded wallet (one confirmed credit, symbolic amount); one send; backend answer from {accepted, already in mempool, already known, already confirmed, rejected (unclassified error or a SYMBOLIC chain.RPCErr reject code: every value except the three 'have it already' codes, decided by the solver), subscription failure}; balance compared for symbolic minconf 0..10"},
 			{Pkg: walletPkg, Fn: "ZzC20PublishChained", Tiers: "qt", Reach: []string{"c20-end", "chained", "failed"}, Bound: "same with an earlier unconfirmed send whose change is spent"},
 			{Pkg: walletPkg, Fn: "ZzC20Resend", Tiers: "qt", Reach: []string{"c20-end", "resent", "resend-rejected"}, Bound: "unconfirmed parent and child; resendUnminedTxs with acceptance or rejection of the parent"},
+			{Pkg: walletPkg, Fn: "ZzC20ResendMany", Tiers: "qt", Reach: []string{"c20-end", "some-rejected", "classified-rejection"}, Bound: "three unconfirmed transactions (parent, child, independent one); on rebroadcast each is accepted or rejected independently, the reject code symbolic over every reason the chain package knows"},
 		},
 		Assume:  append([]string{"transactions are built by the harness (unsigned): publishing does not verify signatures"}, walletAssume...),
 		Outside: "longer histories, several simultaneous unconfirmed chains, leases on the inputs, the real rpc error mapping of each backend (chain.MapRPCErr)",
